@@ -144,7 +144,8 @@ def g_tuple_list(R, tier):
                 sig = p.ctx.signature()
                 if shape == "two-stars":
                     R.check(f"{nm}/second-star-raises-SyntaxError/{sig}", p.kind == "raise" and isinstance(p.value, SyntaxError), repr(p.value),
-                            replay=dict(kind="src", src="a, *b, c, *d = [1,2,3,4]", expect="SyntaxError"))
+                            replay=dict(kind="srcs", srcs=["a, *b, c, *d = [1,2,3,4]", "a, (*b, *c) = 1, [2, 3]", "[a, [*b, *c], d] = 1, [2, 3], 4", "x = (p, (*q, *r)) = 1, [2]",
+                                                           "def f():\n    a, (*b, *c) = 1, [2, 3]\n", "for i in [1]:\n    [*u, *v] = [1]\n"], expect="SyntaxError"))
                     continue
                 if p.kind != "ok":
                     R.fail(f"{nm}/no-unexpected-raise/{sig}", repr(p.value))
@@ -576,7 +577,9 @@ def check_aug(R, nm, sig, p, kind, opcls, iop):
         if atom in ev.pure:
             continue  # a bare name / constant: multiplicity is not observable
         R.check(f"{nm}/target-part-evaluated-once/{atom}/{sig}", n == (0 if absent else 1), f"{atom} evaluated {n} times",
-                replay=dict(kind="src", src="log = []\nclass C:\n    x = 0\nc = C()\ndef f():\n    log.append('f')\n    return c\nf().x += 1\nr = (c.x, log)\n", expect="same-globals"))
+                replay=dict(kind="src", src="log = []\nclass C:\n    x = 0\nc = C()\ndef f():\n    log.append('f')\n    return c\nf().x += 1\n"
+                                                 "def p(n, v):\n    log.append(n)\n    return v\nrec = list(range(8))\nrec[1:7:p('step', 2)] += p('value', [])\nrec[::p('stride', 4)] += []\n"
+                                                 "rec[p('lo', 0):4] += p('tail', [])\nrec[p('i', 2)] += p('inc', 10)\nd = {'k': 1}\nd[p('key', 'k')] -= p('dec', 1)\nr = (c.x, log, rec, d)\n", expect="same-globals"))
 
 
 def _ifexp_selects(c, stored, cond, arm, result):
@@ -622,6 +625,15 @@ def replay_src(rp):
     return RU.replay_source(rp["src"], rp.get("expect", "same-globals"))
 
 
+def replay_srcs(rp):
+    from suites import replay_util as RU
+    for src in rp["srcs"]:
+        rep = RU.replay_source(src, rp.get("expect", "same-globals"))
+        if rep.get("reproduced"):
+            return rep
+    return dict(reproduced=False, tried=len(rp["srcs"]))
+
+
 def replay_augop(rp):
     from suites import replay_util as RU
     sym_ = {"Add": "+", "Sub": "-", "Mult": "*", "MatMult": "@", "Div": "/", "FloorDiv": "//", "Mod": "%", "Pow": "**",
@@ -653,7 +665,7 @@ def replay_destructure(rp):
     return dict(reproduced=False, tried=srcs)
 
 
-REPLAY = {"src": replay_src, "augop": replay_augop, "destructure": replay_destructure}
+REPLAY = {"src": replay_src, "srcs": replay_srcs, "augop": replay_augop, "destructure": replay_destructure}
 
 from suites import thorough as _th
 GROUPS["thorough:destructuring-programs"] = _th.bounded_from_replay("bounded/destructuring-programs", replay_destructure)
